@@ -130,6 +130,73 @@ decreasing_by
   all_goals (try have h5 := dropLine_le rest)
   all_goals omega
 
+/-- one pull from the token generator: the first token produced from the current state and the
+    state afterwards (`none` = input exhausted).  Between two pulls the category table may change
+    (`\catcode` executed by the consumer): the remaining input is re-read under the table of the
+    next pull, exactly as the generator re-reads its character buffer. -/
+def tokStep (t : CatTable) (st : St) (prevPar : Bool) (cs : List Nat) : Option (Tok × St × Bool × List Nat) :=
+  match h : nextChar t cs with
+  | none => none
+  | some (code, ch, rest) =>
+    if code = 11 ∨ code = 12 then some (.ch (classCat code) ch, .M, false, rest)
+    else if code = 10 then
+      match st with
+      | .M => some (.space, .S, false, rest)
+      | _ => tokStep t st prevPar rest
+    else if code = 5 then
+      match st with
+      | .S => tokStep t .N prevPar rest
+      | .M => some (.space, .N, false, rest)
+      | .N =>
+        if ch = 10 then
+          if prevPar then tokStep t .N true rest else some (.cs parName, .N, true, rest)
+        else
+          if prevPar then tokStep t .N true (dropLine rest) else some (.cs parName, .N, true, dropLine rest)
+    else if code = 0 then
+      match nextChar t rest with
+      | none => some (.cs [], .M, false, [])
+      | some (c2, ch2, rest2) =>
+        if c2 = 11 then
+          let r := readWord t rest2
+          some (.cs (ch2 :: r.1), .S, ch2 :: r.1 == parName, r.2)
+        else if c2 = 5 then some (.space, .S, false, rest2)
+        else some (.cs [ch2], .M, false, rest2)
+    else if code = 14 then tokStep t .N prevPar (dropLine rest)
+    else if code = 13 then some (.cs (activePrefix ++ [ch]), .M, false, rest)
+    else some (.ch (classCat code) ch, .M, false, rest)
+termination_by cs.length
+decreasing_by
+  all_goals (have h1 := nextChar_lt t cs _ _ _ h)
+  all_goals (try have h5 := dropLine_le rest)
+  all_goals omega
+
+/-- a category-table operation issued by the consumer between pulls -/
+inductive CatOp where
+  | default | verbatim | set (c k : Nat)
+
+def applyCatOp (t : CatTable) : CatOp → CatTable
+  | .default => defaultCats
+  | .verbatim => verbatimCats
+  | .set c k => setCat t c k
+
+/-- pull up to `n` tokens under the table `t` -/
+def pullN (t : CatTable) : Nat → St → Bool → List Nat → List Tok × St × Bool × List Nat
+  | 0, st, p, cs => ([], st, p, cs)
+  | n + 1, st, p, cs =>
+    match tokStep t st p cs with
+    | none => ([], st, p, [])
+    | some (tok, st', p', cs') =>
+      let r := pullN t n st' p' cs'
+      (tok :: r.1, r.2)
+
+/-- a schedule: apply the operations, then pull that many tokens; after the schedule pull everything -/
+def dynRun (t : CatTable) (st : St) (p : Bool) (cs : List Nat) : List (List CatOp × Nat) → List Tok
+  | [] => tokFrom t st p cs
+  | (ops, n) :: more =>
+    let t' := ops.foldl applyCatOp t
+    let r := pullN t' n st p cs
+    r.1 ++ dynRun t' r.2.1 r.2.2.1 r.2.2.2 more
+
 /-- `TeX().input(s).itertokens()` -/
 def tokenize (t : CatTable) (s : List Nat) : List Tok := tokFrom t .N false s
 
